@@ -46,7 +46,8 @@ Not decided here (and why):
   * integer division: symbolic SAT dividers do not terminate (tried: every form timed out at 300 s) -- left out.
   * int64 multiply needs no 32-bit-half emulation in this code base (scalar loop or vpmullq), so ATOMS applies to it everywhere.
   * complex SIMD vectors (split real/imaginary representation): + - conj multiply divide rcp and the masked store are covered by
-    complex_arith_cases / complex_mask_store_case below; abs, arg, norm, reductions and mixed scalar forms are not.
+    complex_arith_cases / complex_mask_store_case below, sum() and real()/imag() by complex_reduce_cases; abs, arg, norm,
+    magnitude, product(), dot() and mixed scalar forms are not.
   * SIMDVector<float|double,avx512>::minimum()/maximum() do not exist (C06 acceptance finding): no unit can be compiled.
   * set(n0,...,n_{N-1}) is specified in the Intel `_mm_set_*` argument order (last argument is lane 0), which is what every
     specialisation and the generic fallback document.
@@ -531,6 +532,24 @@ def complex_arith_case(base, abi, lanes, op, cfg, inplace=False, variant='plain'
     if op in ('mul', 'div', 'rcp'): cs.alt_group = grp
     return cs
 
+def complex_reduce_cases(base, abi, lanes, cfg):
+    """complex SIMD vectors, linear part of the interface: sum() == (sum of the real parts, sum of the imaginary parts) with every
+    lane exactly once (ATOMS 'LIN': ring reinterpretation, rounding of the summation order not judged) and real()/imag() ==
+    the de-interleaved parts lane by lane (SYM, bit exact)."""
+    C = 'std::complex<%s>' % base.cpp
+    head = ('    using V = SIMDVector<%s,simd_abi::%s>;\n    static_assert(V::Size == %d, "lane count");\n'
+            '    V va(reinterpret_cast<const %s*>(a), false);\n' % (C, abi, lanes, C))
+    out = []
+    a = Buf('a', base, 2 * lanes, 'in', atoms='LIN'); c = Buf('c', base, 2, 'out')
+    ens = [(c, 0, E.total([E.inp(a, 2 * i) for i in range(lanes)], base)), (c, 1, E.total([E.inp(a, 2 * i + 1) for i in range(lanes)], base))]
+    out.append(Case('C08/csum/c%s/%s/%s' % (base.name, abi, cfg.tag()), 'C08',
+                    head + '    %s r = va.sum();\n    c[0] = r.real(); c[1] = r.imag();' % C, [a, c], ens, 'ATOMS', cfg))
+    for part, off in (('real', 0), ('imag', 1)):
+        a = Buf('a', base, 2 * lanes, 'in'); c = Buf('c', base, lanes, 'out')
+        out.append(Case('C08/c%s/c%s/%s/%s' % (part, base.name, abi, cfg.tag()), 'C08',
+                        head + '    va.%s().store(c, false);' % part, [a, c], [(c, i, E.inp(a, 2 * i + off)) for i in range(lanes)], 'SYM', cfg))
+    return out
+
 def complex_arith_cases(isa, thorough):
     out = []
     abis = {'sse2': [('sse', 16)], 'sse4.2': [('sse', 16)], 'avx': [('avx', 32), ('sse', 16)], 'avx2': [('avx', 32), ('sse', 16)],
@@ -539,6 +558,7 @@ def complex_arith_cases(isa, thorough):
     for abi, nbytes in abis:
         for base in (DBL, FLT):
             lanes = nbytes * 8 // base.bits
+            out += complex_reduce_cases(base, abi, lanes, Cfg(isa))
             for op in ('add', 'sub', 'mul', 'div', 'rcp', 'conj'):
                 variants = ['plain']
                 if op in ('mul', 'div', 'rcp') and fma: variants = ['plain', 'fma1', 'fma2']
@@ -573,7 +593,7 @@ def cases(tier, seed):
     return res
 
 def evidence_extra(tier):
-    return {'not_decided': ['rcp/rsqrt relative error bounds', 'product() of 16-lane vectors', 'integer division', 'complex SIMD vectors',
+    return {'not_decided': ['rcp/rsqrt relative error bounds', 'product() of 16-lane vectors', 'integer division', 'complex SIMD vectors: abs arg norm magnitude product dot mixed-scalar forms',
                             'rounding of float sum()/dot() (proved: each lane / product exactly once)']}
 
 # ---- supporting static fact: no integer lane access through incompatible pointer casts ------------------------------
